@@ -276,8 +276,15 @@ class Ctx:
             cv = _concrete_uf(name, [norm_number(a) for a in args])
             if cv is not None:
                 return cv
-        f = self.uf(name, len(args))
         zs = [to_real_z(a) for a in args]
+        if name == "sqrt":
+            a0 = z3.simplify(zs[0])
+            if z3.is_rational_value(a0) or z3.is_algebraic_value(a0):
+                # exact algebraic number arithmetic of z3 (no uninterpreted function needed)
+                nonneg = z3.simplify(a0 >= 0)
+                if z3.is_true(nonneg):
+                    return mk(z3.Sqrt(a0))
+        f = self.uf(name, len(args))
         t = f(*zs)
         r = Sym(t, "real")
         if name in ("sqrt", "exp"):
@@ -432,6 +439,8 @@ class Interp:
         key = (fi.module.relpath, fi.qualname + (".setter" if fi.kind == "setter" else ""))
         if spec is None and key in self.contracts and self.contracts[key].get("modular", False) and self.depth > 0:
             return self.apply_contract(fi, self.contracts[key], args, kwargs, self_obj)
+        if spec is None and self.depth > 0 and fi.name in (self.options.get("merge_calls") or ()) and not self.ctx.in_merged:
+            return self.ctx.merged(lambda: self.call_funcinfo(fi, args, kwargs, self_obj, spec=self.contracts.get(key) or {}))
         self.called.add(key)
         frame = Frame(fi.module, fi, None, spec or self.contracts.get(key))
         node = fi.node
@@ -826,7 +835,8 @@ class Interp:
     def resolve_global(self, name, module):
         f = module.functions.get(name)
         if f is not None:
-            return f
+            ov = self.ext.external(f"{module.dotted}.{name}")
+            return ov if ov is not None else f
         c = module.classes.get(name)
         if c is not None:
             return c
@@ -847,6 +857,9 @@ class Interp:
         raise Unsupported(f"unresolved name {name} in {module.relpath}")
 
     def resolve_from_import(self, mod, name, module):
+        ext_override = self.ext.external(f"{mod}.{name}")
+        if ext_override is not None:
+            return ext_override
         if mod.startswith("abtem"):
             m = extract.module_for_dotted(mod)
             if m is not None:
@@ -981,6 +994,15 @@ class Interp:
                 return obj.im
         if isinstance(obj, (Sym, int, Fraction)) and name in ("real",):
             return obj
+        if isinstance(obj, (Sym, SymC, int, Fraction)) and self.options.get("pointwise"):
+            if name == "shape":
+                return ()
+            if name == "imag" and not isinstance(obj, SymC):
+                return 0
+            if name == "ndim":
+                return 0
+            if name == "dtype":
+                return TypeRef("dtype")
         if isinstance(obj, (list, tuple, dict, str, SymSeq, Sym, int, Fraction, SliceVal)):
             if isinstance(obj, SliceVal) and name in ("start", "stop", "step"):
                 return {"start": obj.lo, "stop": obj.hi, "step": obj.step}[name]
@@ -1200,6 +1222,10 @@ class Interp:
         if isinstance(obj, dict):
             if concrete(idx):
                 if idx not in obj:
+                    fac = getattr(obj, "factory", None)
+                    if fac is not None:
+                        obj[idx] = self.call(fac, [], {})
+                        return obj[idx]
                     raise PyRaise("KeyError", repr(idx))
                 return obj[idx]
             # symbolic key over a finite dict: case split
